@@ -38,7 +38,7 @@ def q(xs):
     return ", ".join('"%s"' % x for x in xs)
 
 
-def cfg_text(P, C, A, strict, noties, loads, pnat, cnat, fp, unk, mode, props=(), d1=None, d2=None, pt=2, ct=2, bridges=("default", "b2"), dup=False):
+def cfg_text(P, C, A, strict, noties, loads, pnat, cnat, fp, unk, mode, props=(), d1=None, d2=None, pt=2, ct=2, bridges=("default", "b2"), dup=False, rejects=None):
     d1 = D1_FIXED if d1 is None else d1
     d2 = D2_FIXED if d2 is None else d2
     t = ["CONSTANTS",
@@ -49,6 +49,7 @@ def cfg_text(P, C, A, strict, noties, loads, pnat, cnat, fp, unk, mode, props=()
          "  PNatSet = {%s}" % q(pnat), "  CNatSet = {%s}" % q(cnat), "  FpSet = {%s}" % q(fp),
          "  UnknownTargets = %s" % ("TRUE" if unk else "FALSE"), "  Bridges = {%s}" % q(bridges),
          "  DupSids = %s" % ("TRUE" if dup else "FALSE"),
+         "  Rejects = %s" % ("TRUE" if (rejects if rejects is not None else mode != "mc") else "FALSE"),
          "  MaxDebug = %d" % (1000000 if mode.startswith("trace") else (2 if mode == "gen" else 0)), "  None = None"]
     if mode == "mc":
         t += ["SPECIFICATION Spec", "VIEW view", "INVARIANTS " + " ".join(INVARIANTS), "PROPERTIES MatchRight " + " ".join(props)]
@@ -69,7 +70,7 @@ def names(prefix, n):
 def mc_configs(tier):
     c = {}
     c["MC_small"] = cfg_text(names("p", 1), names("c", 1), names("a", 1), False, False, [0, 8], ALLP, ALLC, ALLF, True, "mc",
-                             props=["EveryRequestCompletes"])
+                             props=["EveryRequestCompletes"], rejects=True)
     c["MC_core"] = cfg_text(names("p", 2), names("c", 2), names("a", 2), False, True, [0, 8], ["unrestricted"], ["restricted"],
                             ["default", "b2"], True, "mc")
     c["MC_repoll"] = cfg_text(names("p", 2), names("c", 1), names("a", 1), False, True, [0, 8], ["unrestricted"], ["restricted"],
@@ -85,7 +86,7 @@ def mc_configs(tier):
 
 
 # actions every exhaustive run must take at least once (per configuration family): vacuity guard
-MUST_COVER = {"MC_small": ["ProxyRegister", "OfferRendezvous", "WaiterForward", "WaiterTimerFire", "WaiterTimeoutLocked", "ProxyRespond",
+MUST_COVER = {"MC_small": ["ProxyRegister", "ProxyRejected", "OfferRendezvous", "WaiterForward", "WaiterTimerFire", "WaiterTimeoutLocked", "ProxyRespond",
                            "ClientMatch", "AnswerSend", "ClientGetAnswer", "ClientTimerFire", "ClientCleanup", "AnswerLookup", "Tick"],
               "MC_repoll": ["ProxyRepoll", "WaiterTimeoutLocked", "ClientCleanup"]}
 
@@ -200,6 +201,8 @@ def to_scenario(sid, steps, rng, mode="replay", fresh=False):
                 cc[a] = c
                 addr[it[1]] = ("[%s]:%d" if ":" in a else "%s:%d") % (a, rng.randint(1024, 65000))
                 ptype[it[1]] = rng.choice(PTYPES)
+            elif it[0] == "ProxyRejected":
+                ptype[it[1]] = rng.choice(PTYPES)
     norelay = {p: True for p in addr if rng.random() < 0.25}
     sc = {"id": sid, "mode": mode, "steps": steps, "via": via, "addr": addr, "ptype": ptype, "fresh": fresh,
           "norelayext": norelay, "rollover": rng.random() < 0.04, "cc": cc}
@@ -273,6 +276,9 @@ def generate_herds(n, seed, first_id, debug_storm=False):
                     nat = rng.choice(ALLP + ["unrestricted", "unrestricted", "absent"])
                     wave.append(["ProxyRegister", "p%d" % pn, nat, rng.choice([0, 0, 8, 16, 3, 15, 23, -5])])
                     registered.append("p%d" % pn)
+                for _ in range(rng.choice([0, 0, 1, 2])):
+                    pn += 1
+                    wave.append(["ProxyRejected", "p%d" % pn])    # a poll the broker refuses (relay pattern)
             for _ in range(rng.randint(0, k)):
                 cn += 1
                 wave.append(["ClientMatch", "c%d" % cn, rng.choice(ALLC + ["restricted", "unknown"]), rng.choice(["default", "default", "b2", "unlisted"])])
